@@ -31,7 +31,7 @@ RULE = ('histories of 2-6 tasks from {create(persist), launch(persist, nowait), 
 ASSUMPTIONS = ['the RabbitMQ transport is replaced by the in-process communicator of pv/comm.py', 'errors may arrive wrapped in RemoteException']
 REQUIRED = ['tasks/create', 'tasks/launch', 'tasks/continue', 'tasks/bogus', 'rejected', 'persisted_checks', 'nowait_replies', 'wait_replies', 'error_replies',
             'route/direct', 'route/thread', 'route/async', 'persister/none', 'persister/mem', 'persister/pickle', 'persister/failing', 'loader/custom',
-            'loader/custom_ctx', 'continued_from_tag', 'traces_checked']
+            'loader/custom_ctx', 'continued_from_tag', 'traces_checked', 'killed_replies']
 BOUNDS = {'quick': '400 histories', 'thorough': '6000 histories'}
 
 S = programs.step
@@ -63,11 +63,17 @@ def gen_cases(tier, seed):
                 hist.append(['create', prog, rng.random() < 0.7])
                 created += 1
             elif r < 0.55:
-                hist.append(['launch', prog, rng.random() < 0.5, rng.random() < 0.5])
+                op = ['launch', prog, rng.random() < 0.5, rng.random() < 0.5]
+                if prog == 'waits' and not op[3] and rng.random() < 0.5:
+                    op.append('kill')  # the process is killed while the (waited) task waits for it
+                hist.append(op)
                 created += 1
             elif r < 0.9:
                 ref = rng.randrange(created) if created and rng.random() < 0.85 else 'unknown'
-                hist.append(['continue', ref, rng.choice([None, None, 't']), rng.random() < 0.5])
+                op = ['continue', ref, rng.choice([None, None, 't']), rng.random() < 0.5]
+                if not op[3] and rng.random() < 0.3:
+                    op.append('kill')
+                hist.append(op)
             else:
                 hist.append(['bogus'])
         yield {'persister': persister, 'loader': loader, 'route': route, 'history': hist}
@@ -127,8 +133,10 @@ def run_case(case):
             made = []  # per create/launch task: {'pid', 'prog', 'persisted'}
             can_persist = case['persister'] in ('mem', 'pickle')
 
+            killed = []
+
             def settle(fut_or_task, expect_blocking):
-                """Pump until the reply is there; resume waiting processes only when the task is known to wait for completion."""
+                """Pump until the reply is there; resume (or, if asked, kill) waiting processes only when the task waits for completion."""
                 for _ in range(40):
                     drv.pump()
                     if fut_or_task.done():
@@ -136,9 +144,14 @@ def run_case(case):
                     if expect_blocking:
                         woke = False
                         for p in list(programs.INSTANCES):
-                            if not p.has_terminated() and p.state == ps.ProcessState.WAITING:
+                            if not p.has_terminated() and p.state == ps.ProcessState.WAITING and p not in idle:
                                 try:
-                                    p.resume('rv')
+                                    if kill_flag[0]:
+                                        p.kill('killed-while-task-waits')
+                                        killed.append(p)
+                                        kill_flag[0] = False
+                                    else:
+                                        p.resume('rv')
                                     woke = True
                                 except Exception:  # noqa: BLE001
                                     pass
@@ -184,8 +197,11 @@ def run_case(case):
                         break
 
             idle = set()  # instances that were only created (must never run)
+            kill_flag = [False]
             for op in case['history']:
                 kind = op[0]
+                kill_flag[0] = op[-1] == 'kill'
+                nkilled = len(killed)
                 obs['tasks'][kind] = obs['tasks'].get(kind, 0) + 1
                 before = set(id(p) for p in programs.INSTANCES)
                 cps_before = _keys(persister)
@@ -339,6 +355,12 @@ def _keys(persister):
 
 
 def _check_completed(proc, prog, rep, ctx, viol, obs, V, full):
+    if proc.state.value == 'killed' and proc.killed_msg().get('message') == 'killed-while-task-waits':
+        # the harness killed it while the task was waiting for completion: the reply must be the process's error
+        obs['killed_replies'] = obs.get('killed_replies', 0) + 1
+        if rep is not None and not (rep[0] == 'error' and 'Killed' in rep[1] + rep[2]):
+            viol.append(V('killed-reply', 'killed-reply', '%s: the process was killed but the reply is %s' % (ctx, rep)))
+        return
     exp = programs.expected_run(PROGS[prog], [(True, 'rv')] * 3)
     obs['traces_checked'] += 1
     got = [[t[1], t[4], t[5]] for t in proc.trace if t[0] == 'enter']
